@@ -403,6 +403,30 @@ fn run_case(userun: bool, seed: u64, ops: &[Op]) -> String {
                     _ => { hung(); 'h' }
                 }
             }
+            Op::Spawn { k, kind, via: 'x', is_fn } if k < slots.len() => {
+                // sent through arbiter k's handle by a task that runs on ANOTHER arbiter (the first other one with an active gate):
+                // the sender's thread has a current arbiter of its own, which is not the target
+                let other = (0..slots.len()).find(|&j| j != k && slots[j].gate.is_some());
+                match other {
+                    Some(j) => {
+                        let (h, sh2) = (slots[k].handle.clone(), sh.clone());
+                        let out = Arc::new(Mutex::new(None));
+                        let o2 = out.clone();
+                        let ran = on_gate(&slots[j], Box::new(move || {
+                            *o2.lock().unwrap() = Some(send_via_handle(&h, sh2, k, pos, kind, is_fn, busy_us));
+                        }));
+                        let v = *out.lock().unwrap();
+                        match (ran, v) {
+                            (true, Some(true)) => 't',
+                            (true, Some(false)) => 'f',
+                            _ => { hung(); 'h' }
+                        }
+                    }
+                    None => {
+                        if send_via_handle(&slots[k].handle, sh.clone(), k, pos, kind, is_fn, busy_us) { 't' } else { 'f' }
+                    }
+                }
+            }
             Op::Stop { k, via: 'g' } if k < slots.len() && slots[k].gate.is_some() => {
                 let out = Arc::new(Mutex::new(None));
                 let o2 = out.clone();
